@@ -454,7 +454,7 @@ func Oracle(spec TreeSpec, pre *State, post map[string]string, build func() (boo
 	sort.Strings(keys)
 	for _, k := range keys {
 		pres, posts := preMethods[k], postMethods[k]
-		elem := spec.bodyOf(k)
+		elem := spec.labelOf(k)
 		if len(posts) == 0 {
 			if invalid > 0 {
 				st.Masked++
@@ -484,6 +484,11 @@ func Oracle(spec TreeSpec, pre *State, post map[string]string, build func() (boo
 			}
 			if !eqSeq(a.Results, b.Results) {
 				add("named-results-changed:"+elem, "result names of %s changed: before %v after %v", k, a.Results, b.Results)
+			}
+			if !eqSeq(a.Body, b.Body) {
+				// clause 3 is about the imports a KEPT body refers to; this body was not kept
+				// (reported above) and what replaced it has its own needs
+				continue
 			}
 			matched, from = &b, &a
 		}
@@ -594,7 +599,7 @@ func Oracle(spec TreeSpec, pre *State, post map[string]string, build func() (boo
 			kind := d.Kind
 			if d.Kind == "method" {
 				if pre.Gen.resolverFields()[d.Name] {
-					kind = "method-of-removed-field:" + spec.bodyOf(d.Name)
+					kind = "method-of-removed-field:" + spec.labelOf(d.Name)
 				} else if strings.HasPrefix(d.Name, "Resolver.") {
 					kind = "method-on-Resolver"
 				}
